@@ -1,21 +1,23 @@
 """C18 - every request gets a well-formed answer and cannot inject markup.
 
-spec/Dispatch.tla follows one request through wsgiapp -> OWS dispatch -> request parsing/validation -> handler ->
+spec/Dispatch.tla follows one request through wsgiapp -> OWS dispatch -> request parsing -> validation -> handler ->
 exception handler selection -> catch-all -> response assembly, over vectors of per-parameter classes, with a taint
-model of request text (where it lands, how it is encoded).  TLC enumerates the vectors (all vectors with at most
-MaxDev parameters off the baseline), checks AlwaysResponds / MarkupFixed / NoLeak on the model and prints, for
-every vector, the response classes the code may produce.
+model of request text (where it lands, how it is encoded).  The constant Defects selects the variant of the code: {} is
+the code with the candidate repairs, AS_FOUND the code as found.  TLC enumerates the vectors (all vectors with at most
+MaxDev parameters off the baseline), checks AlwaysResponds / MarkupFixed / NoLeak / ImageOK on the repaired variant,
+shows that they fail on every one-defect variant, and prints for every vector the response classes of both variants.
 
 spec -> code: every vector is concretised (one harmless reference string set, several seeded hostile ones: markup,
 non-latin-1, control characters, CR LF, ...) and sent through the real WSGI callable; the observed class
 (raised?, status, content type, body kind, decoded image size, XML skeleton and exception code, where request text
 came back) must be one of the classes TLC printed, the element structure must equal the reference's, and the strict
-checks on the observation itself (header syntax, image decodes as declared, XML well-formed, no traceback / server
-path) must hold.  Counterexamples TLC finds for the defect variants of the model are replayed on the real code.
+checks on the observation itself (header syntax, image decodes as declared, XML well-formed, no unescaped request text,
+no traceback / server path) must hold.  The counterexamples TLC finds for the one-defect variants are replayed on the
+real application: a reproduced counterexample is a violation.
 
 code -> spec: random vectors with many parameters off the baseline are executed, recorded and validated by TLC
 against spec/trace/Trace_Dispatch.tla (the observation must be a terminal state of the machine started with the
-recorded vector; the invariants are evaluated on the recorded observations)."""
+recorded vector; the property is evaluated on every recorded observation)."""
 import json
 import logging
 import os
@@ -524,3 +526,4 @@ def replay(ctx, data):
         return rc
     finally:
         chk.close()
+        shutil.rmtree(ctx.workdir, ignore_errors=True)
